@@ -25,9 +25,21 @@ func TestC03MainWiring(t *testing.T) {
 		matcher := rapid.SampledFrom([]string{"prefix", "glob", "iprefix"}).Draw(t, "proxy.matcher")
 		globOff := rapid.Bool().Draw(t, "glob.matching.disabled")
 		args := []string{"fabio", "-proxy.matcher", matcher, "-proxy.strategy", "rr", fmt.Sprintf("-glob.matching.disabled=%v", globOff)}
+		// the size of the cache of compiled host patterns: whatever value start-up accepts must route
+		size := rapid.SampledFrom([]string{"", "", "1", "2", "1000", "0", "-1"}).Draw(t, "glob.cache.size")
+		if size != "" {
+			args = append(args, "-glob.cache.size="+size)
+		}
 		cfg, err := config.Load(args, nil)
 		if err != nil {
+			if size == "0" || size == "-1" {
+				hx.Class("main-wiring:unusable-glob-cache-size-refused-at-start-up")
+				return
+			}
 			t.Fatalf("config rejected: %v %q", err, args)
+		}
+		if size != "" {
+			hx.Class("main-wiring:glob.cache.size=" + size)
 		}
 		var text bytes.Buffer
 		paths := map[string][]string{
